@@ -326,6 +326,14 @@ func (w *httpWorker) judge(in *httpInput, o *httpObservation) {
 		col.violate(sig, fmt.Sprintf(f, a...), map[string]any{"input": in, "observed": o, "limits": limitCfgs[in.Cfg]})
 	}
 	col.res.Evaluations++
+	if strings.Contains(in.Class, ":") || in.Expect == "echo" {
+		body := string(in.Body)
+		if len(body) > 300 {
+			body = body[:300] + "...(truncated)"
+		}
+		col.sample(map[string]any{"id": in.ID, "class": in.Class, "transport": in.Transport, "method": in.Method, "raw_query": in.RawQuery,
+			"content_type": in.Header["Content-Type"], "body_head": body, "expect": in.Expect, "status": o.Status, "recover_calls": len(o.Recovers), "resolver_log": o.Fields})
+	}
 	col.count("requests_"+in.Transport, 1)
 	col.count("class_"+strings.SplitN(in.Class, ":", 2)[0], 1)
 	col.count(fmt.Sprintf("status_%d", o.Status), 1)
